@@ -140,6 +140,29 @@ func c17Gen(t *rapid.T) c17Case {
 		x = c03Binary(t)
 		x = append(x, rapid.SliceOfN(rapid.Byte(), 0, 40).Draw(t, "tail")...)
 	case 5:
+		if rapid.Bool().Draw(t, "sized") {
+			// containers whose declared size is exactly right, followed by trailing bytes (tags, padding)
+			payload := rapid.SliceOfN(rapid.Byte(), 4, 120).Draw(t, "payload")
+			switch rapid.IntRange(0, 2).Draw(t, "container") {
+			case 0:
+				form := rapid.SampledFrom([]string{"WAVEfmt ", "WEBPVP8 ", "AVI LIST", "QLCMfmt "}).Draw(t, "riffform")
+				body := append([]byte(form), payload...)
+				x = append([]byte("RIFF"), byte(len(body)), byte(len(body)>>8), 0, 0)
+				x = append(x, body...)
+			case 1:
+				body := append([]byte(rapid.SampledFrom([]string{"AIFF", "AIFC"}).Draw(t, "aiff")), payload...)
+				x = append([]byte("FORM"), 0, 0, byte(len(body)>>8), byte(len(body)))
+				x = append(x, body...)
+			default:
+				brand := rapid.SampledFrom([]string{"isom", "M4A ", "avif", "3gp4", "qt  ", "heic"}).Draw(t, "brand")
+				x = append([]byte{0, 0, 0, 24}, []byte("ftyp"+brand+"\x00\x00\x02\x00"+brand+"mp41")...)
+				x = append(x, 0, 0, 0, byte(8+len(payload)))
+				x = append(x, []byte("free")...)
+				x = append(x, payload...)
+			}
+			x = append(x, rapid.SampledFrom([]string{"", "\x00", "TAG" + strings.Repeat("\x00", 125), "\x00\x00\x00\x00\x00\x00\x00\x00", "trailing junk"}).Draw(t, "trailer")...)
+			break
+		}
 		x = c03Ole(t)
 	case 6:
 		x = c03Zip(t)
@@ -185,6 +208,36 @@ func TestVerif_C17(t *testing.T) {
 		vfRun(t, sub)
 	}
 	if t.Failed() || vfReplayMode() {
+		return
+	}
+	if vfOnlySub("splice") {
+		// every seed cut after k bytes (k <= 48) and continued differently: a signature that is only
+		// matched because the header ends there must not turn into text or "unknown" when it goes on
+		sh, nsh := vfShard(), vfNShards()
+		conts := [][]byte{[]byte("_NOTES and more text\n"), []byte("\r\nline two\r\n"), {0, 0, 0, 0, 0, 0, 0, 0}, []byte("\xff\xfe\xfd")}
+		idx := 0
+		for _, s := range vfSeeds() {
+			for k := 1; k <= len(s.Data) && k <= 48; k++ {
+				for ci, ct := range conts {
+					idx++
+					if idx%nsh != sh {
+						continue
+					}
+					x := append(append([]byte(nil), s.Data[:k]...), ct...)
+					c := c17Case{X: x}
+					r := c17Check(c)
+					r.Labels = append(r.Labels, "splice")
+					vfStats.record(r, func() any { return map[string]any{"sub": "splice", "seed": s.Name, "k": k, "cont": ci} })
+					if r.Err != nil {
+						vfEnumFail(t, "C17", "gen", c, r.Err)
+						return
+					}
+				}
+			}
+		}
+		vfStats.Subchecks["splice"] = fmt.Sprintf("%d inputs: every seed cut after k<=48 bytes x 4 continuations, all limits", idx)
+	}
+	if t.Failed() {
 		return
 	}
 	if vfOnlySub("seeds") {
